@@ -9,6 +9,8 @@
 #include <set>
 #include <map>
 #include <functional>
+#include <csignal>
+#include <unistd.h>
 
 namespace vf {
 
@@ -81,6 +83,28 @@ struct Args {
         return dflt;
     }
     long long geti(const std::string& key, long long dflt) const { return atoll(get(key, std::to_string(dflt)).c_str()); }
+};
+
+// Per-case watchdog: if a case runs longer than `seconds`, report it as a violation (a hang) and end this slice.
+// The slice's remaining cases are not explored in this run; the run exits with the violation recorded.
+struct Watchdog {
+    static char* buf() { static char b[8192]; return b; }
+    static void on_alarm(int) {
+        const char* b = buf();
+        size_t n = strlen(b);
+        ssize_t r = write(1, b, n); (void)r;
+        _exit(0);
+    }
+    static void arm(const std::string& sig, const std::string& detail, unsigned seconds) {
+        static bool installed = false;
+        if (!installed) { signal(SIGALRM, on_alarm); installed = true; }
+        fflush(stdout);
+        std::string line = "V\t" + sig + "\t" + show(detail) + " :: did not terminate within " + std::to_string(seconds) + " s\nS\thangs\t1\n";
+        if (line.size() >= 8192) line = "V\t" + sig.substr(0, 4000) + "\thang\n";
+        memcpy(buf(), line.c_str(), line.size() + 1);
+        alarm(seconds);
+    }
+    static void disarm() { alarm(0); }
 };
 
 inline std::vector<std::string> split(const std::string& s, char sep) {
